@@ -20,6 +20,8 @@ def run(ctx):
     selectcheck.run_mc_and_replay(ctx, 'group', 3, 2, 4, 3, nonvac=('sharedgroup', 'GroupLaw'))
     selectcheck.record_and_validate(ctx, 'group', ctx.pick(1500, 20000), 30)
     selectcheck.typed_tables_leg(ctx, 'group', ctx.pick(120, 1500))
+    # grouping over FROM (subquery): keys that are columns of the subquery, selected or not
+    selectcheck.record_and_validate(ctx, 'nested', ctx.pick(500, 8000), 16)
     ctx.exhaustive = False
 
 
